@@ -98,6 +98,7 @@ class State:
         self.frames = [env]  # call frames of inlined same-object methods; objects are shared between frames
         self.events: List[Tuple[str, tuple, ast.Call]] = []
         self.trace: List[int] = []
+        self.last_kwargs: Dict[str, object] = {}
 
     @property
     def env(self):
@@ -131,6 +132,8 @@ class Evaluator:
         self.funcs = funcs or {}
         self.on_call = on_call
         self.modset = modset  # dotted "self.m" -> set of self attributes the method may assign (None: not a method)
+        self.globals: Dict[str, object] = {}  # module-level constants of the analysed module (names not bound locally)
+        self.signatures: Dict[str, List[str]] = {}  # dotted callee -> parameter names, so that hooks see keyword arguments positionally
         self.max_unroll = 2  # bounded unrolling of `while` loops whose condition stays true/unknown
         self.handler_names: Callable = q.handler_names  # rules may resolve module-level tuple constants in `except` clauses
         self.fallback: Optional[Callable] = None  # (state, call ast, dotted, args) -> value | NotImplemented, for calls that are not interpreted
@@ -144,7 +147,9 @@ class Evaluator:
         if isinstance(e, ast.Constant):
             return e.value
         if isinstance(e, ast.Name):
-            return st.env.get(e.id, UNK)
+            if e.id in st.env:
+                return st.env[e.id]
+            return self.globals.get(e.id, UNK)
         if isinstance(e, ast.Attribute):
             b = self.ev(e.value, st)
             if isinstance(b, Obj):
@@ -310,6 +315,16 @@ class Evaluator:
         d = q.dotted(c.func)
         args = [self.ev(a, st) for a in c.args if not isinstance(a, ast.Starred)]
         kwargs = {k.arg: self.ev(k.value, st) for k in c.keywords if k.arg}
+        if kwargs and d in self.signatures:
+            names = self.signatures[d]
+            full = list(args) + [UNK] * max(0, len(names) - len(args))
+            for k, v in kwargs.items():
+                if k in names:
+                    full[names.index(k)] = v
+            while full and full[-1] is UNK and len(full) > len(args) and not any(names[i] in kwargs for i in range(len(full) - 1, len(names))):
+                full.pop()
+            args = full
+        st.last_kwargs = kwargs
         st.events.append((d or q.unparse(c.func), tuple(args), c))
         if self.on_call is not None:
             self.on_call(st, c, d, args)
@@ -739,6 +754,13 @@ class Evaluator:
             for z, st2 in self.block(s.finalbody, y):
                 out.append((z, status if st2 == "next" else st2))
         return out
+
+
+def call_value(st: State, args, index: int, name: str, default=UNK):
+    """argument ``index`` / keyword ``name`` of the call a hook is currently folding"""
+    if index < len(args):
+        return args[index]
+    return st.last_kwargs.get(name, default)
 
 
 def _as_load(t: ast.AST) -> ast.AST:
